@@ -166,3 +166,43 @@ func Harness_C13_TimeoutSharedRegistration() {
 	}
 	vCover("shared-timeout-checked")
 }
+
+// progressive call invocations: later chunks of the same call do not postpone
+// the router-side timeout that came with the first chunk
+func Harness_C13_TimeoutProgressiveInvocation() {
+	d := newDealer(vNopLog{}, false, true, false)
+	caller := vNewSess(21, nil, vFeat("caller", map[string]bool{"call_canceling": true, "progressive_call_invocations": true}), 32)
+	callee := vNewSess(22, nil, vFeat("callee", map[string]bool{"call_canceling": true, "progressive_call_invocations": true}), 32)
+	d.register(callee.s, &wamp.Register{Request: 1, Procedure: "p.q"})
+	vSyncDealer(d)
+	callee.vDrain()
+	t0 := vNow()
+	d.call(caller.s, &wamp.Call{Request: 5, Procedure: "p.q", Options: wamp.Dict{"progress": true, "timeout": 1000}, Arguments: wamp.List{1}})
+	vSyncDealer(d)
+	_, n := vFindMsg[*wamp.Invocation](callee.vDrain())
+	vAssert("first-chunk-invoked", n == 1)
+	nChunks := 1 + vChoice("later-chunks", 2)
+	for i := 0; i < nChunks; i++ {
+		vAdvance(300 * 1000000)
+		vSyncDealer(d)
+		vAssert("no-timeout-yet", len(caller.vDrain()) == 0)
+		d.call(caller.s, &wamp.Call{Request: 5, Procedure: "p.q", Options: wamp.Dict{"progress": true}, Arguments: wamp.List{2 + i}})
+		vSyncDealer(d)
+		_, n := vFindMsg[*wamp.Invocation](callee.vDrain())
+		vAssert("later-chunk-invoked", n == 1)
+	}
+	// the callee never answers: the router ends the call 1000 ms after the first chunk
+	vAdvance(int64(1000-300*nChunks+50) * 1000000)
+	vSyncDealer(d)
+	got := caller.vDrain()
+	e, ne := vFindMsg[*wamp.Error](got)
+	vAssert("timed-out-when-the-timeout-of-the-call-expired", ne == 1 && e != nil && e.Error == wamp.ErrTimeout && e.Request == 5)
+	vAssert("not-early", vNow()-t0 >= 1000*1000000)
+	_, ni := vFindMsg[*wamp.Interrupt](callee.vDrain())
+	vAssert("callee-interrupted-once", ni == 1)
+	// and nothing more later
+	vAdvance(2000 * 1000000)
+	vSyncDealer(d)
+	vAssert("nothing-after-the-timeout", len(caller.vDrain()) == 0)
+	vCover("progressive-invocation-timeout(virtual-time)")
+}
